@@ -118,7 +118,16 @@ public:
                 p = page_allocator_traits::allocate(page_allocator, 1);
             }).on_exception( [&] {
                 ++base.n_invalid_entries;
-                invalidate_page( k );
+                // Earlier tickets of this lane may still be using the current tail page:
+                // the lane can be closed only when it is the turn of this ticket
+                // (or has been closed already by an earlier failed allocation)
+                ticket_type c = tail_counter.load(std::memory_order_acquire);
+                for (atomic_backoff b{}; c != k && !(c & 1); b.pause()) {
+                    c = tail_counter.load(std::memory_order_acquire);
+                }
+                if (!(c & 1)) {
+                    invalidate_page( k );
+                }
             });
             page_allocator_traits::construct(page_allocator, p);
         }
